@@ -53,6 +53,16 @@ def wrap_metadata(a: ast.AST, metadata) -> ast.AST:
 
 def translate_case(c: Case) -> Package:
     a = wrap_metadata(parse_query(c.text), c.metadata)
+    prior = c.info.get("prior") if isinstance(c.info, dict) else None
+    if prior:
+        # history: earlier queries (text, metadata) are translated first on the SAME executor object - whether they
+        # succeed or raise - and then the case itself, without resetting anything in between
+        from mc.core.translate import _executor_class, reset_library_state
+        reset_library_state()
+        exe = _executor_class(c.backend)()
+        for ptext, pmd in prior:
+            translate_ast(wrap_metadata(parse_query(ptext), tuple(pmd)), c.backend, query_text=ptext, executor=exe, fresh=False)
+        return translate_ast(a, c.backend, query_text=c.text, executor=exe, fresh=False)
     return translate_ast(a, c.backend, query_text=c.text)
 
 
